@@ -95,7 +95,19 @@ ULeaves == <<
   MappedK("K", KeyOf(RP), Index(RP, Param("K")), FALSE), MappedK("K", KeyOf(RO), Arr(Index(RO, Param("K"))), TRUE),
   App("Tagged", <<LS("point")>>), App("Plain", <<LS("point")>>), App("Nul", <<RP>>), App("Nul", <<RO>>), App("PG", <<TNumber>>),
   App("CG", <<LS("a")>>), App("CG", <<TNumber>>), App("G", <<MappedK("K", RK, Param("K"), FALSE)>>),
-  App("Two", <<TString, TNumber>>), App("Two", <<TNumber, TString>>), App("Two", <<App("Two", <<LS("a"), LS("b")>>), TNull>>)
+  App("Two", <<TString, TNumber>>), App("Two", <<TNumber, TString>>), App("Two", <<App("Two", <<LS("a"), LS("b")>>), TNull>>),
+  \* two sub-validators of one program that differ in one attribute only (optional index value; in both orders of emission)
+  OO(<<Prop("a", Util("Record", <<TString, TNumber>>), FALSE), Prop("b", Util("Partial", <<Util("Record", <<TString, TNumber>>)>>), FALSE)>>),
+  OO(<<Prop("a", Util("Partial", <<Util("Record", <<TString, TNumber>>)>>), FALSE), Prop("b", Util("Record", <<TString, TNumber>>), FALSE)>>),
+  OO(<<Prop("a", Mapped(TString, RK, TRUE), FALSE), Prop("b", Mapped(TString, RK, FALSE), FALSE)>>),
+  \* computed object types whose surviving member declares properties / an index signature of type unknown
+  Util("Exclude", <<Uni(<<OO(<<Prop("kind", LS("m"), FALSE), Prop("name", TString, FALSE), Prop("meta", Prim("unknown"), TRUE)>>),
+                          OO(<<Prop("kind", LS("c"), FALSE), Prop("r", TNumber, FALSE)>>)>>),
+                    OO(<<Prop("kind", LS("c"), FALSE)>>)>>),
+  Util("Exclude", <<Uni(<<Obj(<<Prop("kind", LS("m"), FALSE)>>, <<Ix(TString, Prim("unknown"))>>), OO(<<Prop("kind", LS("c"), FALSE), Prop("r", TNumber, FALSE)>>)>>),
+                    OO(<<Prop("kind", LS("c"), FALSE)>>)>>),
+  Index(OO(<<Prop("body", OO(<<Prop("id", TString, FALSE), Prop("extra", TAny, FALSE)>>), FALSE)>>), LS("body")),
+  Util("Extract", <<Uni(<<OO(<<Prop("kind", LS("m"), FALSE), Prop("meta", Prim("unknown"), FALSE)>>), TString>>), OO(<<Prop("kind", TString, FALSE)>>)>>)
 >>
 
 VARIABLES ty, depth, last
